@@ -18,7 +18,7 @@ import os
 import xml.parsers.expat as expat
 from concurrent.futures import ProcessPoolExecutor
 
-from vlib import common, gen, c06_gen, c06_oracle, c07_lib, strictdec
+from vlib import common, gen, c06_gen, c06_oracle, c06_spec_oracle, c07_lib, strictdec
 from vlib import convcases as cc
 
 PID = "C07"
@@ -41,6 +41,12 @@ def _init(tj):
     _decode.tj = tj
 
 
+def _spec_canon(args):
+    ans, lid = args
+    inf = c06_spec_oracle.events_infoset(ans, _decode.tj, lid)
+    return None if inf is None else json.dumps(inf, sort_keys=True)
+
+
 def _xinfo(x):
     try:
         return ("ok",) + c07_lib.xml_infoset(x)
@@ -52,15 +58,17 @@ def sources(ctx, tj, quick):
     out = []
     files = sorted(glob.glob(os.path.join(common.REPO, "test", "tools", "**", "*.xml"), recursive=True))
     if quick:
-        files = files[ctx.seed % 3::3]
+        # a third of the corpus per run, plus every document with an embedded sub-document (anonymous must not reach them)
+        files = [f for i, f in enumerate(files) if i % 3 == ctx.seed % 3 or "/ddf/" in f or b"<DevInf" in open(f, "rb").read()]
     for f in files:
         out.append(("corpus:" + os.path.relpath(f, os.path.join(common.REPO, "test", "tools")), 0, open(f, "rb").read()))
     docs = c06_gen.documents(tj, common.Rng(ctx.seed, 7), quick)
     if quick:
         # every text / attribute document, every third tag document
-        docs = [d for i, d in enumerate(docs) if (d[1] != "tags" and i % 2 == ctx.seed % 2) or i % 5 == ctx.seed % 5]
+        docs = [d for i, d in enumerate(docs) if (d[1] != "tags" and i % 2 == ctx.seed % 2) or i % 5 == ctx.seed % 5 or d[1] == "embedded"]
     for lid, kind, x, _ in docs:
-        out.append((kind, lid, x))
+        if kind != "boundary":           # 16 k-octet payloads: C06's subject, slow under the leak-checking harness
+            out.append((kind, lid, x))
     return out
 
 
@@ -142,8 +150,12 @@ def run(ctx):
                 violations.append({"what": "api-bytes-differ", "source_xml_hex": x3[2].hex(), "lang": langs.get(si), "options": o,
                                    "conv_object": r.hex() if isinstance(r, bytes) else r, "withlen": w.hex() if isinstance(w, bytes) else w})
             bump("withlen compared")
+    # the proved strict decoder (Spec.decode_lang, driver C04) as a second, independent decoder
+    d04 = common.build_driver("C04")
+    sa, _ = common.run_lines(d04, ["strict %d %s" % (L, wb.hex() if wb else "-") for wb, L in jobs])
     with ProcessPoolExecutor(common.NPROC, initializer=_init, initargs=(tj,)) as ex:
         decs = dict(zip(jkeys, ex.map(_decode, jobs, chunksize=64)))
+        spec = dict(zip(jkeys, ex.map(_spec_canon, [(a, L) for a, (wb, L) in zip(sa, jobs)], chunksize=64)))
     groups_equal = 0
     groups16 = 0
     nontrivial = set()
@@ -155,6 +167,7 @@ def run(ctx):
         lang = [l for l in tj["langs"] if l["id"] == L][0]
         for keep in (0, 1):
             ref = None
+            sref = None
             n_ok = 0
             agree = True
             for o in TUPLES:
@@ -184,6 +197,16 @@ def run(ctx):
                     if (kind_ == "num" and pnum != val) or (kind_ == "str" and pstr != val):
                         violations.append({"what": "public-id", "source_xml_hex": x.hex(), "lang": L, "options": o,
                                            "public_id": pnum, "public_id_string": pstr, "expected": val})
+                sc = spec.get((si, o))
+                if sc is None:
+                    violations.append({"what": "output-refused-by-coq-strict-decoder", "source_xml_hex": x.hex(), "lang": L, "options": o,
+                                       "wbxml": outs[(si, o)].hex()})
+                elif sref is None:
+                    sref = (o, sc)
+                elif sc != sref[1]:
+                    agree = False
+                    violations.append({"what": "options-change-meaning-coq-strict-decoder", "source_xml_hex": x.hex(), "lang": L, "keep_ws": keep,
+                                       "options_a": sref[0], "options_b": o, "wbxml_a": outs[(si, sref[0])].hex(), "wbxml_b": outs[(si, o)].hex()})
                 if ref is None:
                     ref = (o, can)
                 elif can != ref[1]:
